@@ -553,3 +553,121 @@ def c08_r10(ctx):
                        if not (raw or not_index_reader) else "", loc=ctx.nodeloc(f, c))
     if n < 1:
         raise AnalysisError("write_per_doc no longer opens column readers on its reader parameter")
+
+
+def _reaching_defs(func, name):
+    """may-reach definitions of local `name` at every CFG node: {node id: frozenset of defining node ids, -1 = the parameter}"""
+    g = cfgmod.cfg_of(func, exc_edges=False)
+
+    def binds(nd):
+        a = nd.ast
+        if nd.kind != "stmt" or a is None:
+            return False
+        if isinstance(a, ast.Assign):
+            return any(isinstance(t, ast.Name) and t.id == name for tg in a.targets for t in ast.walk(tg))
+        if isinstance(a, (ast.AugAssign, ast.AnnAssign)):
+            return isinstance(a.target, ast.Name) and a.target.id == name
+        return False
+
+    def transfer(nd, st):
+        return frozenset([nd.id]) if binds(nd) else st
+
+    sin, _ = cfgmod.forward(g, frozenset([-1]), transfer, meet=lambda a, b: a | b, include_exc=False)
+    return g, sin
+
+
+@rule("C08", "R11", "K4", "a column's default is a value of the column's own domain",
+      min_instances=1, also=("C13", "C14"),
+      clause="A field type whose to_column_value() converts (NUMERIC: to_sortable) stores converted values in its column, so the "
+             "`default=` it hands to the column in default_column() -- what a document without the field reads back, sorts and groups "
+             "by -- must be a converted value too: every definition reaching the attribute it passes is the result of "
+             "self.to_column_value(...) / the converter itself, an entry of typecode_max (the domain's maximum) or an integer literal.  "
+             "A raw constructor argument there comes back through from_column_value() as a different number (default=5 on a signed "
+             "field read back -2147483643 and sorted first) and a float cannot be packed at all.")
+def c08_r11(ctx):
+    prog = ctx.prog
+    base = prog.cls("fields.FieldType")
+    n = 0
+    for cls in prog.subclasses(base, strict=False):
+        dc = cls.methods.get("default_column")
+        if dc is None:
+            continue
+        rets = [r for r in returns_of(dc) if isinstance(r.value, ast.Call)]
+        for r in rets:
+            # the column class's constructor tells which argument is its `default`
+            ccls = [k for k in prog.subclasses(prog.cls("columns.Column"), strict=True) if k.name == norm.call_name(r.value)]
+            init = prog.lookup(ccls[0], "__init__") if len(ccls) == 1 else None
+            if init is None:
+                continue
+            mapping, _ = bind_args(r.value, init)
+            dv = (mapping or {}).get("default")
+            if not (isinstance(dv, ast.Attribute) and norm.canon(dv).startswith("self.")):
+                continue
+            attr = dv.attr
+            tcv = prog.lookup(cls, "to_column_value")
+            if tcv is None:
+                continue
+            trets = [x.value for x in returns_of(tcv) if x.value is not None]
+            conv = set()
+            for v in trets:
+                if isinstance(v, ast.Call):
+                    conv.add(norm.call_name(v))
+            params = set(tcv.params[1:])
+            identity = all(isinstance(v, ast.Name) and v.id in params for v in trets) and not any(
+                isinstance(s, (ast.Assign, ast.AugAssign)) and any(isinstance(t, ast.Name) and t.id in params for t in ast.walk(s))
+                for s in ast.walk(tcv.node))
+            if identity or not conv:
+                continue
+            ctx.saw(dc)
+            ctx.saw(tcv)
+            # every `self.<attr> = V` of the class
+            for m in cls.methods.values():
+                for st in ast.walk(m.node):
+                    if not (isinstance(st, ast.Assign) and any(norm.canon(t) == "self." + attr for t in st.targets)):
+                        continue
+                    n += 1
+                    ctx.saw(m)
+                    bad = []
+                    seen = set()
+
+                    def judge(expr, at_stmt, func=m):
+                        if isinstance(expr, ast.Constant) and isinstance(expr.value, int) and not isinstance(expr.value, bool):
+                            return
+                        if isinstance(expr, ast.Subscript) and norm.canon(expr.value).split(".")[-1] == "typecode_max":
+                            return
+                        if isinstance(expr, ast.Call) and (norm.call_name(expr) in conv or norm.call_name(expr) == "to_column_value"):
+                            return
+                        if isinstance(expr, ast.IfExp):
+                            judge(expr.body, at_stmt)
+                            judge(expr.orelse, at_stmt)
+                            return
+                        if isinstance(expr, ast.Name):
+                            g, sin = _reaching_defs(func, expr.id)
+                            nd = None
+                            for x in g.nodes:
+                                if x.ast is at_stmt:
+                                    nd = x
+                            defs = sin[nd.id] if nd is not None and sin[nd.id] is not None else frozenset([-1])
+                            for d in sorted(defs):
+                                if (expr.id, d) in seen:
+                                    continue
+                                seen.add((expr.id, d))
+                                if d == -1:
+                                    if expr.id in func.params:
+                                        bad.append("the raw argument `%s`" % expr.id)
+                                    else:
+                                        bad.append("`%s` (not a converted value)" % expr.id)
+                                    continue
+                                da = g.nodes[d].ast
+                                if isinstance(da, ast.Assign):
+                                    judge(da.value, da)
+                                else:
+                                    bad.append("`%s` as updated at line %d" % (expr.id, da.lineno))
+                            return
+                        bad.append("`%s`" % norm.canon(expr)[:60])
+
+                    judge(st.value, st)
+                    ctx.ob(m, not bad, "self.%s, the default handed to the column, holds only converted values (%s)" % (attr, "/".join(sorted(conv))),
+                           detail="reaches it unconverted: " + "; ".join(sorted(set(bad))) if bad else "", loc=ctx.nodeloc(m, st))
+    if n < 1:
+        raise AnalysisError("no field type passes an attribute as its column's default any more")
